@@ -2,6 +2,7 @@ package eng
 
 import (
 	"fmt"
+	"go/types"
 	"strings"
 
 	"golang.org/x/tools/go/ssa"
@@ -21,4 +22,59 @@ func (c *Ctx) MustReachSSA(rule, fromRef, targetRef string) bool {
 	}
 	c.Pass(rule, fromRef, what, strings.Join(chain, " → "))
 	return true
+}
+
+// ReachableDecls returns the declared module functions reachable from fromRef in the
+// module-internal graph (closures are attributed to the declaration that contains them).
+func (c *Ctx) ReachableDecls(fromRef string, cutRefs ...string) map[*types.Func]bool {
+	s := c.P.SSA()
+	cut := map[*ssa.Function]bool{}
+	for _, t := range cutRefs {
+		cut[s.FuncOf(c.P.Func(t))] = true
+	}
+	start := s.FuncOf(c.P.Func(fromRef))
+	seen := map[*ssa.Function]bool{start: true}
+	work := []*ssa.Function{start}
+	for len(work) > 0 {
+		f := work[len(work)-1]
+		work = work[:len(work)-1]
+		for _, e := range s.succ[f] {
+			if !seen[e.to] && !cut[e.to] {
+				seen[e.to] = true
+				work = append(work, e.to)
+			}
+		}
+	}
+	out := map[*types.Func]bool{}
+	for f := range seen {
+		d := f
+		for d.Parent() != nil {
+			d = d.Parent()
+		}
+		if o := d.Origin(); o != nil {
+			d = o
+		}
+		if obj, ok := d.Object().(*types.Func); ok {
+			out[obj.Origin()] = true
+		}
+	}
+	return out
+}
+
+// WitnessPath renders a module-internal call path from fromRef to the declared function target.
+func (c *Ctx) WitnessPath(fromRef string, target *types.Func, cutRefs ...string) string {
+	s := c.P.SSA()
+	cut := map[*ssa.Function]bool{}
+	for _, t := range cutRefs {
+		cut[s.FuncOf(c.P.Func(t))] = true
+	}
+	tf := s.byObj[target.Origin()]
+	if tf == nil {
+		return "(no SSA function)"
+	}
+	chain, _ := s.Path(s.FuncOf(c.P.Func(fromRef)), map[*ssa.Function]bool{tf: true}, cut)
+	if chain == nil {
+		return "(reached through a closure or from another entry point)"
+	}
+	return strings.Join(chain, " → ")
 }
